@@ -19,6 +19,8 @@ func main() {
 			subC18(flag.Arg(0))
 		case "c06":
 			subC06(flag.Args())
+		case "shutdown":
+			subShutdown(flag.Args())
 		case "sched":
 			subSched(flag.Args())
 		case "race":
